@@ -17,6 +17,7 @@ arrivals, any instants, durations, failing runs and same-instant placements; not
 -/
 import EdzedModel.OutputAsync
 import EdzedProofs.OutputAsync
+import EdzedProofs.OutputAsyncTie
 
 namespace Edzed.OutputAsync
 
@@ -342,3 +343,246 @@ example :
     (final c ops).output = 0 := by decide +kernel
 
 end Edzed.OutputAsync
+
+/-! ## Tie by translation
+
+`tools/py2lean_oasync.py` regenerates `EdzedModel/Gen/TranslatedOutputAsync.lean` from the CURRENT source of
+`OutputAsync._ctrl_cancel/_ctrl_wait/_ctrl_start/_output_coro/_output_coro_wrapper/_event_put/stop/stop_async`
+and `utils.shield_cancel` on every run: each `await` is a primitive call, a `while True` loop is one iteration
+function plus fuel.  The theorems below run these programs on primitives that are the operations of the model
+(`EdzedProofs/OutputAsyncTie.lean`) and say that they compute the model's steps.  A semantic edit of one of
+the methods changes the generated program and breaks the theorem about it. -/
+
+namespace Edzed.TrTie
+open Edzed.TrTie.OA Edzed.OutputAsync Edzed.OutputAsync.Shield Edzed.Gen.TrD Edzed.Gen.TrOA
+
+/-- **`shield_cancel` as translated IS the model's `shieldCancel`**: for every script of what the successive
+    `await asyncio.shield(task)` yield, the translated function re-awaits the shielded task after each
+    cancellation, returns its value if there was none, re-raises the last cancellation when the task has
+    finished, and lets a cancellation that finds the task done (and any other exception) propagate at once
+    (`fuel` = any number above the number of awaits) -/
+theorem translated_outputasync_shield_cancel_is_model {ε ν : Type} (script : List (Step ε ν)) (fuel : Nat)
+    (h : script.length < fuel) :
+    shieldOut ((shield_cancel (shieldP (ε := ε) (ν := ν)) fuel () ⟨script, false⟩).2)
+      = shieldCancel script none := by
+  have := shield_loop_model script none none false fuel h
+  simp only [Option.map] at this
+  rw [← this, shield_cancel_unfold]
+
+/-! ### `_ctrl_cancel`: one iteration of the control loop
+
+The model's controller step `settle` is event-granular: it looks at the queue and at the current run.  The
+code is await-granular: one iteration of `while True` takes an item, cancels and AWAITS the running task, then
+drains the queue and starts the last item.  `W` below is whatever happens while the controller awaits -- it is
+universally quantified; the only thing assumed about it is that the awaited task is over afterwards. -/
+
+/-- nothing is running (no task yet, or the task is done): ONE ITERATION of `_ctrl_cancel` IS the model's
+    `settle` -- the item taken from the queue and everything queued behind it are drained, each discarded
+    item is reported through on_cancel with ITS OWN data, in order, the last one is started; a sentinel in
+    the queue ends the drain with `stop = True` and the item before it still runs -/
+theorem translated_outputasync_ctrl_cancel_idle_is_settle (c : Cfg) (W : State → State)
+    (hm : c.mode = Mode.cancel) (s : State) (j : Job) (q : List Job) (task : Option Job) (data : Option Job)
+    (fuel : Nat) (hr : s.runs = []) (hq : s.queue = j :: q) (hf : q.length < fuel) :
+    ctrl_cancel_iter1 (ctrlP c W) [.onCancel] fuel () data false task s
+      = (settle c s, .next (LoopCtl.next, (some (lastJob j q), s.stopped, some (lastJob j q)))) := by
+  have htail := cancel_tail c W hm { s with queue := q } j fuel hr hf
+  have hre : requeue j { s with queue := q } = s := by cases s; simp_all [requeue]
+  rw [hre] at htail
+  unfold ctrl_cancel_iter1
+  simp only [M.bind, Bool.not_false, if_true, ctrlP_get_cons c W s j q hq, Option.isNone_some, Bool.false_eq_true,
+    if_false, M.pure]
+  cases task with
+  | none => simpa [M.bind, M.pure] using htail
+  | some k =>
+    have hd : (ctrlP c W).taskDone k { s with queue := q } = true := by simp [ctrlP, hr]
+    simpa [M.bind, M.pure, M.get, hd] using htail
+
+/-- a task is active: ONE ITERATION of `_ctrl_cancel` is the model's `settle` (the running coroutine is
+    cancelled -- only while it is in its coroutine phase, never by the sentinel --, the item taken stays
+    "queued first"), then whatever happens while the controller awaits the task (`W`), then the model's
+    `settle` again: drain with on_cancel for every discarded item, start the last -/
+theorem translated_outputasync_ctrl_cancel_busy_is_settle_wait_settle (c : Cfg) (W : State → State)
+    (hm : c.mode = Mode.cancel) (hW : ∀ x, (W x).runs = []) (s : State) (r : Run) (rest : List Run) (j : Job)
+    (q : List Job) (data : Option Job) (fuel : Nat) (hr : s.runs = r :: rest) (hq : s.queue = j :: q)
+    (hf : (W { settle c s with queue := q }).queue.length < fuel) :
+    let s2 := W { settle c s with queue := q }
+    ctrl_cancel_iter1 (ctrlP c W) [.onCancel] fuel () data false (some r.job) s
+      = (settle c (requeue j s2),
+         .next (LoopCtl.next, (some (lastJob j s2.queue), s2.stopped, some (lastJob j s2.queue)))) := by
+  intro s2
+  have hcj := cancelJob_is_settle c hm s r rest j q hr hq
+  have htail := cancel_tail c W hm s2 j fuel (hW _) hf
+  have hd : (ctrlP c W).taskDone r.job { s with queue := q } = false := by simp [ctrlP, hr]
+  unfold ctrl_cancel_iter1
+  simp only [M.bind, Bool.not_false, if_true, ctrlP_get_cons c W s j q hq, Option.isNone_some, Bool.false_eq_true,
+    if_false, M.pure, M.get, hd, Bool.not_false]
+  have hc : (ctrlP c W).taskCancel r.job { s with queue := q } = (cancelJob c r.job { s with queue := q }, .next ()) := rfl
+  have hw : ∀ x, (ctrlP c W).awaitTask r.job x = (W x, .next ()) := fun _ => rfl
+  simp only [hc, hw, hcj]
+  simpa [M.bind, M.pure] using htail
+
+/-- the sentinel: it never cancels -- with a task still active the iteration awaits it and leaves the loop;
+    nothing else happens -/
+theorem translated_outputasync_ctrl_cancel_sentinel (c : Cfg) (W : State → State) (s : State)
+    (task : Option Job) (data : Option Job) (fuel : Nat) (hq : s.queue = []) (hs : s.stopped = true) :
+    ctrl_cancel_iter1 (ctrlP c W) [.onCancel] fuel () data false task s
+      = ((match task with
+          | some k => if (ctrlP c W).taskDone k s then s else W s
+          | none => s),
+         .next (LoopCtl.brk, (none, true, task))) := by
+  unfold ctrl_cancel_iter1
+  simp only [M.bind, Bool.not_false, if_true, ctrlP_get_sentinel c W s hq hs, Option.isNone_none, M.pure]
+  cases task with
+  | none => rfl
+  | some k =>
+    have hw : ∀ x, (ctrlP c W).awaitTask k x = (W x, .next ()) := fun _ => rfl
+    cases hd : (ctrlP c W).taskDone k s <;> simp [M.bind, M.get, M.pure, hd, hw]
+
+/-- after the sentinel has been seen in the drain (`stop = True`): the next iteration takes nothing from the
+    queue, does not cancel the task it has just started, awaits it and leaves the loop -/
+theorem translated_outputasync_ctrl_cancel_after_stop (c : Cfg) (W : State → State) (s : State)
+    (k : Job) (data : Option Job) (fuel : Nat) (hd : (ctrlP c W).taskDone k s = false) :
+    ctrl_cancel_iter1 (ctrlP c W) [.onCancel] fuel () data true (some k) s
+      = (W s, .next (LoopCtl.brk, (data, true, some k))) := by
+  have hw : ∀ x, (ctrlP c W).awaitTask k x = (W x, .next ()) := fun _ => rfl
+  unfold ctrl_cancel_iter1
+  simp [M.bind, M.get, M.pure, hd, hw]
+
+/-! ### `_ctrl_wait`, `_ctrl_start` -/
+
+/-- ONE ITERATION of `_ctrl_wait` with nothing running: the head of the queue is taken and its run is
+    started -- the model's `settle` -- and the controller awaits the whole run (`W`) before it looks at the
+    queue again -/
+theorem translated_outputasync_ctrl_wait_iter_is_settle (c : Cfg) (W : State → State) (hm : c.mode = Mode.wait)
+    (s : State) (j : Job) (q : List Job) (data : Option Job) (fuel : Nat)
+    (hr : s.runs = []) (hq : s.queue = j :: q) :
+    ctrl_wait_iter1 (ctrlP c W) [.onCancel] fuel data s = (W (settle c s), .next (LoopCtl.next, some j)) := by
+  have hset : settle c s = startRun { s with queue := q } j := by
+    unfold settle; simp only [hm, hr, hq]
+  have hrw : (ctrlP c W).runWrapper (some j) { s with queue := q } = (W (startRun { s with queue := q } j), .next ()) := rfl
+  unfold ctrl_wait_iter1
+  simp [M.bind, ctrlP_get_cons c W s j q hq, hrw, M.pure, hset]
+
+/-- the sentinel ends `_ctrl_wait`; nothing else happens -/
+theorem translated_outputasync_ctrl_wait_sentinel (c : Cfg) (W : State → State) (s : State) (data : Option Job)
+    (fuel : Nat) (hq : s.queue = []) (hs : s.stopped = true) :
+    ctrl_wait_iter1 (ctrlP c W) [.onCancel] fuel data s = (s, .next (LoopCtl.brk, none)) := by
+  unfold ctrl_wait_iter1
+  simp [M.bind, ctrlP_get_sentinel c W s hq hs, M.pure]
+
+/-- `_ctrl_start` on a stopped block: every queued item starts its own run at once, in order -- the model's
+    `startAll`, i.e. its `settle` up to `stop_async`'s part --, then the controller awaits all of them (`W`) -/
+theorem translated_outputasync_ctrl_start_is_startAll (c : Cfg) (W : State → State) (hm : c.mode = Mode.start)
+    (s : State) (fuel : Nat) (hs : s.stopped = true) (hf : s.queue.length < fuel) :
+    let s1 := startAll { s with queue := [] } s.queue
+    ctrl_start (ctrlP c W) [.onCancel] fuel s = ((if s1.runs.isEmpty then s1 else W s1), .next ()) ∧
+    settle c s = startStopData s1 := by
+  intro s1
+  refine ⟨?_, by unfold settle; simp only [hm]; rfl⟩
+  unfold ctrl_start
+  simp only [M.bind, start_loop c W s s.queue none fuel rfl hs hf, M.get]
+  have ht : (ctrlP c W).tasksNonEmpty s1 = !s1.runs.isEmpty := rfl
+  have hg : ∀ x, (ctrlP c W).gatherTasks x = (W x, .next ()) := fun _ => rfl
+  change (if (ctrlP c W).tasksNonEmpty s1 = true then
+      (ctrlP c W).gatherTasks.bind fun _ => M.pure () else M.pure ()) s1 = _
+  rw [ht]
+  cases s1.runs.isEmpty <;> simp [M.bind, M.pure, hg]
+
+/-! ### `_event_put`, `stop`, `stop_async` -/
+
+/-- `_event_put` IS the model's acceptance of a put (before `stop()`: queued; after it: behind the sentinel) -/
+theorem translated_outputasync_event_put_is_accept (c : Cfg) (W : State → State) (s : State) (x : Item) :
+    event_put (stopP c W) x s = ((if s.stopped then acceptLate s x else accept s x), .next ()) := by
+  simp [event_put, stopP, M.bind, M.modify, M.pure]
+
+/-- `stop()` IS the model's `doStop`: stop_data is queued as an ordinary item BEFORE the sentinel in wait and
+    cancel mode; in start mode `stop()` does not touch stop_data (the model registers it for `stop_async`,
+    see `translated_outputasync_stop_async_is_model`): there the code does what `doStop` does for a block
+    without stop_data -/
+theorem translated_outputasync_stop_is_doStop (c : Cfg) (W : State → State) (s : State)
+    (hns : s.stopped = false) :
+    (stop (stopP c W) s).1 = doStop (if c.mode = Mode.start then { c with stopData := none } else c) s := by
+  unfold stop doStop
+  cases hd : c.stopData with
+  | none =>
+    by_cases hm : c.mode = Mode.start <;>
+      simp [stopP, hd, hm, hns, M.bind, M.modify, M.pure, markStopped]
+  | some d =>
+    by_cases hm : c.mode = Mode.start
+    · simp [stopP, hd, hm, hns, M.bind, M.modify, M.pure, markStopped]
+    · simp [stopP, hd, hm, hns, M.bind, M.modify, M.pure, markStopped, accept, emit]
+
+/-- `stop_async` IS the model's end of the stop: it awaits the control task (`W`; a cancellation of this
+    await is swallowed) and then, in start mode only, runs stop_data -- the model's `startStopData` -/
+theorem translated_outputasync_stop_async_is_model (c : Cfg) (W : State → State) (s : State)
+    (hst : (W s).stopped = true) (hr : (W s).runs = [])
+    (hsd : c.stopData = none → (W s).sdPending = none) :
+    (stop_async (stopP c W) s).1 = if c.mode = Mode.start then startStopData (W s) else W s := by
+  unfold stop_async startStopData
+  by_cases hm : c.mode = Mode.start
+  · cases hd : c.stopData with
+    | none => simp [stopP, hd, hm, M.bind, M.modify, M.pure, M.tryExcept, hsd hd]
+    | some d =>
+      cases hp : (W s).sdPending <;>
+        simp [stopP, hd, hm, M.bind, M.modify, M.pure, M.tryExcept, hp, hst, hr]
+  · cases hd : c.stopData <;> simp [stopP, hd, hm, M.bind, M.modify, M.pure, M.tryExcept]
+
+/-! ### one run: `_output_coro`, `_output_coro_wrapper` -/
+
+/-- the user's coroutine comes to its end: `_output_coro` logs what the model's `coroEnd` logs (`afterCoro`:
+    the end of the coroutine, then success for a returning and error for a raising script, with the job's
+    own data), then sleeps the (shielded) guard time iff it is positive -/
+theorem translated_outputasync_output_coro_end_is_model (c : Cfg) (s : State) (j : Job) (t : Nat) :
+    output_coro (runP0 c (.ends t)) [.onCancel] [.onError] [.onSuccess] j s
+      = (guardPart c (afterCoro (emit s (.start j)) t ⟨j, true, t⟩), .next ()) := by
+  unfold output_coro guardPart afterCoro
+  cases hf : j.data.fail <;> by_cases hg : 0 < c.guard <;>
+    simp [tryExceptElse, runP0, excIs, M.bind, M.pure, M.modify, M.raise, M.tryExcept, hf, hg,
+      output_coro_for1, output_coro_for2, output_coro_for3, emit, sleepGuard]
+
+/-- a cancellation is delivered inside the user's coroutine: `_output_coro` reports it through on_cancel
+    with the job's own data -- the two log entries of the model's `cancelCur` / `expire` -- and still sleeps
+    the guard time -/
+theorem translated_outputasync_output_coro_cancel_is_model (c : Cfg) (s : State) (j : Job) (t : Nat) :
+    output_coro (runP0 c (.cancelledAt t)) [.onCancel] [.onError] [.onSuccess] j s
+      = (guardPart c (emit (emit { emit s (.start j) with now := max s.now t } (.cancelled j)) (.canc j)), .next ()) := by
+  unfold output_coro guardPart
+  by_cases hg : 0 < c.guard <;>
+    simp [tryExceptElse, runP0, excIs, M.bind, M.pure, M.modify, M.raise, M.tryExcept, hg,
+      output_coro_for1, output_coro_for2, output_coro_for3, emit, sleepGuard]
+
+/-- the whole run: `_output_coro_wrapper` counts the output up, runs `_output_coro`, and counts it down in
+    every case -- the model's `startRun`, `afterCoro` (+ guard time), `countDown` (the model additionally
+    keeps the run in `runs` while it is active) -/
+theorem translated_outputasync_wrapper_is_model (c : Cfg) (s : State) (j : Job) (t : Nat) :
+    (output_coro_wrapper (runP c (.ends t)) [.onCancel] [.onError] [.onSuccess] j s).1
+      = { countDown (guardPart c (afterCoro (startRun s j) t ⟨j, true, t⟩)) with runs := s.runs } := by
+  have h1 := translated_outputasync_output_coro_end_is_model c (addOut 1 s) j t
+  unfold output_coro_wrapper
+  simp only [runP, M.bind, M.tryFinally, M.pure]
+  have ha : ∀ d x, (runP0 c (.ends t)).addOutput d x = (addOut d x, .next ()) := fun _ _ => rfl
+  simp only [ha, h1]
+  unfold guardPart afterCoro countDown startRun addOut sleepGuard
+  by_cases hg : 0 < c.guard <;> cases hf : j.data.fail <;> simp [hg, hf, emit] <;> omega
+
+/-- the output is counted down IN EVERY CASE (`try … finally`): whatever `_output_coro` does -- returns,
+    raises, is cancelled --, the wrapper counts the output up before and down after it, and the outcome
+    of `_output_coro` is the outcome of the wrapper -/
+theorem translated_outputasync_wrapper_counts_down_always (c : Cfg) (oc : Outcome)
+    (body : Job → M State Exc Unit Unit) (j : Job) (s : State) :
+    output_coro_wrapper (runPwith c oc body) [.onCancel] [.onError] [.onSuccess] j s
+      = (addOut (-1) (body j (addOut 1 s)).1,
+         match (body j (addOut 1 s)).2 with
+         | .next _ => .next ()
+         | .ret r => .ret r
+         | .raise e => .raise e
+         | .diverged => .diverged) := by
+  have ha : ∀ d x, (runPwith c oc body).addOutput d x = (addOut d x, .next ()) := fun _ _ => rfl
+  have hb : (runPwith c oc body).runCoro = body := rfl
+  unfold output_coro_wrapper
+  simp only [M.bind, M.tryFinally, M.pure, ha, hb]
+  cases hbody : body j (addOut 1 s) with
+  | mk s1 o => cases o <;> rfl
+
+end Edzed.TrTie
+
